@@ -14,11 +14,15 @@ RULE = ('random histories of relay (strictly increasing whole-second virtual tim
         'size-boundaries: one entry of an exact byte length 64 KiB-1/64 KiB/64 KiB+1, 1 MiB-1/1 MiB/1 MiB+1, 4 MiB (thorough: 4095..4097, 8192, 9999/10000, 99999/100000, 128 KiB+-1, 999999/1000000, 2 MiB, 4 MiB+-1, 9999999/10000000; payload bytes x, quote, backslash), '
         'or ending at an exact file offset k*64 KiB, placed first / in the middle / last in a rotated file or in current, small entries around it and in the other file, optional acknowledgement + clean-up + second outage; '
         'big-history: random histories with several entries of 4 KiB .. 1.1 MiB (thorough .. 4 MiB); big-truncate: a file cut right before / inside / right after a large entry; '
-        'nonmonotone-clock: relays within one clock reading and with the clock stepped back by 1 s .. 1 h, rotations in the same second and right after the step, acknowledgement + clean-up. '
+        'nonmonotone-clock: relays within one clock reading and with the clock stepped back by 1 s .. 1 h, rotations in the same second and right after the step, acknowledgement + clean-up; '
+        'two-endpoint-zones: the two endpoints of a child zone (a1, a2) or one of them and the HA peer of the local zone (m2), both away while 1-3 events for the zone are logged, one returns and is replayed to, '
+        '1-4 steps of messages ARRIVING from the returned endpoint / from the HA peer with an originZone member (MessageHandler -> handler -> SyncRelayMessage with that origin), local relays, clean-up, rotation, disconnect/reconnect, '
+        'restart, then the other returns; GetConnected/GetLocalLogPosition of all 6 endpoints observed before and after every relay (local or arriving); 5 % of the steps of random-history are arriving messages as well. '
         'non-trivial = at least one persisted event and one replay that delivered something; distinct = distinct script text')
 TRUSTED = ['model: coq/Replay/RlBytes.v, RlModel.v (transcription of ApiListener::PersistMessage/RotateLogFile/OpenLogFile/ReplayLog/ApiTimerHandler/'
            'SyncRelayMessage/RelayMessageOne, JsonRpcConnection::MessageHandler timestamp filter, SetLogPositionHandler, NetString::ReadStringFromStream); '
-           'RlCompact.v is PROVED to refine it (C12_record_model_*), so it adds nothing here',
+           'RlCompact.v is PROVED to refine it (C12_record_model_*), so it adds nothing here; RlOrigin.v: the origin tests of RelayMessageOne and the origin MessageHandler builds '
+           '(its endpoint loop is PROVED equal to the loop translated from /repo on every run: C12_src_relay_endpoint_iter_origin_model)',
            'log entry payload: tiny concrete encoding = the bytes JsonEncode emits for PersistMessage\'s dictionary; strict decoder for that shape only '
            '(JsonDecode accepts more; the generator keeps corrupting bytes to values on which both agree, see notes/C12.md)',
            'tools/facts_c12.py: recognisers of the size limits (netstring reader digits / colon window / maxMessageLength test, what ReplayLog passes, what PersistMessage writes) and of the forms of ReplayLog/RotateLogFile',
@@ -27,7 +31,8 @@ ASSUMPTIONS = ['the sender\'s clock advances before every relay (rl_hclocked, pr
                'every persisted entry is shorter than 10^9 bytes and has a timestamp below 10^15 s (rl_hsized over the regenerated limits; necessary: C12_read_limit_hides); the run covers entries up to 16 MiB',
                'no event is relayed while the peer is syncing (statement speaks about disconnected peers)',
                'StreamReadContext::FillFromStream delivers the whole file over successive calls (whole-file buffer in the model); exercised with files up to 16 MiB and frames ending at 4 KiB / 64 KiB chunk boundaries',
-               'the local endpoint is the zone master and messages are locally generated (origin = null)']
+               'the local endpoint is the routing master of its zone (the configuration of the harness: its name sorts first); messages are locally generated or arrive from a connected endpoint '
+               '(origin = that endpoint, origin zone = its zone, or for the HA peer the zone its originZone member names)']
 
 SECS = ['-', 'op', 'om', 'oa', 'ob', 'oc', 'og', 'za', 'zb', 'zm', 'zg', 'oa', 'ob', 'om']
 DURS = [0, -1, 30, 600, 3600, 86400, 86400, 600]
@@ -663,7 +668,9 @@ def keep_line(l):
 def extra_stats(cases, impl):
     st = {'persisted': 0, 'not_persisted': 0, 'replays': 0, 'replayed_messages': 0, 'setlogposition_in_replay': 0, 'truncations': 0, 'corruptions': 0,
           'relays_with_pad': 0, 'largest_pad': 0, 'pads_ge_64KiB': 0, 'pads_ge_1MiB': 0, 'largest_replayed_message': 0, 'replayed_messages_ge_1MiB': 0,
-          'largest_log_file': 0, 'size_boundary_targets': {}, 'nonmonotone_relays': 0}
+          'largest_log_file': 0, 'size_boundary_targets': {}, 'nonmonotone_relays': 0,
+          'arriving_messages': 0, 'arriving_accepted': 0, 'arriving_persisted': 0, 'arriving_with_originZone': 0, 'arriving_while_zone_mate_away': 0,
+          'relays_moving_a_connected_position': 0, 'two_endpoint_pairs': {}}
     for c in cases:
         last = None
         tnow = None
@@ -685,10 +692,26 @@ def extra_stats(cases, impl):
                     if n >= 65536 - 400: st['pads_ge_64KiB'] += 1
                     if n >= 1048576 - 400: st['pads_ge_1MiB'] += 1
         tg = c.get('tags', {})
+        if tg.get('family') == 'two-endpoint-zones':
+            st['two_endpoint_pairs'][tg['pair']] = st['two_endpoint_pairs'].get(tg['pair'], 0) + 1
+        for l in c['lines']:
+            if l.startswith('rl_from') and ' oz=' in l:
+                st['arriving_with_originZone'] += 1
         if tg.get('family') == 'size-boundaries':
             k = '%s:%d' % (tg['mode'], tg['size'])
             st['size_boundary_targets'][k] = st['size_boundary_targets'].get(k, 0) + 1
         for l in impl.get(c['id'], []):
+            if l.startswith('rl_relay') or l.startswith('rl_from'):
+                tk = dict(x.split('=', 1) for x in l.split()[1:] if '=' in x)
+                if tk.get('pos0') != tk.get('pos'):
+                    st['relays_moving_a_connected_position'] += 1
+                if l.startswith('rl_from'):
+                    st['arriving_messages'] += 1
+                    st['arriving_accepted'] += tk.get('accepted') == '1'
+                    st['arriving_persisted'] += tk.get('logged') == '1'
+                    cn = tk.get('conn', '')
+                    if len(cn) >= 4 and tk.get('e') in ('3', '4') and cn[2:4] in ('10', '01'):
+                        st['arriving_while_zone_mate_away'] += 1
             if l.startswith('rl_relay logged=1'): st['persisted'] += 1
             elif l.startswith('rl_relay'): st['not_persisted'] += 1
             elif l.startswith('rl_conn'):
